@@ -633,8 +633,13 @@ def execute(plan):
             return out
         if not so["ok"]:
             if schema_expected:
-                raise RuntimeError("C12 schema rejected: %s\n%s"
-                                   % (ops.brief(so), xml))
+                # the schema text and its schema-level imports are valid by
+                # the model: what the components contribute is not what
+                # their resources say (e.g. stale text from another run)
+                violation("schema-rejected-but-model-accepts", "schema",
+                          "the schema with its schema-level imports was "
+                          "refused: %s" % ops.brief(so), 0)
+                return out
             out["waste"] += 1
             return out
         schema = so["schema"]
